@@ -14,7 +14,7 @@
 //! determinant and adjugate are EXACT, whatever |det| / sum|terms| is, and the inverse is the exact adjugate divided by
 //! the exact determinant: two roundings at most (reciprocal, product), none when det is a power of two.
 
-use crate::wide::{fit_scaling, kexp, kmax4, log_matrix, log_range, p2, partial_products_in_range, perm_abs, Scaling, M4};
+use crate::wide::{family, fit_scaling, kexp, kmax4, log_matrix, log_range, p2, partial_products_in_range, perm_abs, Scaling, M4};
 use num_traits::NumCast;
 use vek::mat::repr_c::column_major as cm;
 use vek::mat::repr_c::row_major as rm;
@@ -71,30 +71,64 @@ fn mantissa<S: Dom>() -> u32 {
     }
 }
 
-/// (1) every product of 1..N non-zero entries from distinct rows and columns has at most `mant` significant bits.
-fn partial_products_exact<const N: usize>(a: &[[Dy; N]; N], mant: u32) -> bool {
-    fn rec<const N: usize>(a: &[[Dy; N]; N], row: usize, used: u32, prod: Dy, cnt: usize, mant: u32) -> bool {
-        if cnt > 0 && prod.bits() > mant {
+/// What the float type can hold exactly: at most `mant` significant bits, no bit below 2^zmin (the subnormal grid; a
+/// subnormal value has fewer than `mant` bits automatically), magnitude below 2^emax.
+#[derive(Clone, Copy, Debug)]
+struct Win {
+    mant: u32,
+    zmin: i32,
+    emax: i32,
+}
+
+impl Win {
+    /// Only the mantissa length (the caller keeps the magnitudes inside the normal range by other means).
+    fn open(mant: u32) -> Win {
+        Win { mant, zmin: i32::MIN / 2, emax: i32::MAX / 2 }
+    }
+    /// The whole finite range of the type, subnormals included.
+    fn full<S: Dom>() -> Win {
+        if S::NAME == "f32" {
+            Win { mant: 24, zmin: -149, emax: 128 }
+        } else {
+            Win { mant: 53, zmin: -1074, emax: 1024 }
+        }
+    }
+    fn holds_int(&self, v: i128, z: i32) -> bool {
+        if v == 0 {
+            return true;
+        }
+        let bits = (128 - v.unsigned_abs().leading_zeros()) as i32;
+        bits as u32 <= self.mant && z >= self.zmin && bits + z <= self.emax
+    }
+    fn holds(&self, d: Dy) -> bool {
+        self.holds_int(d.m, d.z)
+    }
+}
+
+/// (1) every product of 1..N non-zero entries from distinct rows and columns is representable.
+fn partial_products_exact<const N: usize>(a: &[[Dy; N]; N], w: &Win) -> bool {
+    fn rec<const N: usize>(a: &[[Dy; N]; N], row: usize, used: u32, prod: Dy, cnt: usize, w: &Win) -> bool {
+        if cnt > 0 && !w.holds(prod) {
             return false;
         }
         if row == N {
             return true;
         }
-        if !rec(a, row + 1, used, prod, cnt, mant) {
+        if !rec(a, row + 1, used, prod, cnt, w) {
             return false;
         }
         for j in 0..N {
             if used >> j & 1 == 0 && !a[row][j].is_zero() {
                 let p = if cnt == 0 { Some(a[row][j]) } else { prod.mul(a[row][j]) };
                 match p {
-                    Some(p) if rec(a, row + 1, used | 1 << j, p, cnt + 1, mant) => {}
+                    Some(p) if rec(a, row + 1, used | 1 << j, p, cnt + 1, w) => {}
                     _ => return false,
                 }
             }
         }
         true
     }
-    rec(a, 0, 0, Dy::ZERO, 0, mant)
+    rec(a, 0, 0, Dy::ZERO, 0, w)
 }
 
 /// The signed Leibniz monomials of the minor on the rows / columns given as bit masks: (sum of the positive ones, sum of
@@ -161,9 +195,9 @@ fn minor_value<const N: usize>(a: &[[Dy; N]; N], rmask: u32, cmask: u32) -> Opti
     Some(Dy::new(p - n, z))
 }
 
-/// (1) and (2) of the module comment.
-fn exactly_evaluable<const N: usize>(a: &[[Dy; N]; N], mant: u32) -> bool {
-    if !partial_products_exact(a, mant) {
+/// (1) and (2) of the module comment, inside the window `w`.
+fn exactly_evaluable_in<const N: usize>(a: &[[Dy; N]; N], w: &Win) -> bool {
+    if !partial_products_exact(a, w) {
         return false;
     }
     for rmask in 1u32..(1 << N) {
@@ -172,8 +206,9 @@ fn exactly_evaluable<const N: usize>(a: &[[Dy; N]; N], mant: u32) -> bool {
                 continue;
             }
             match minor_sums(a, rmask, cmask) {
-                Some((p, n, _)) => {
-                    if 128 - (p.max(n) as u128).leading_zeros() > mant {
+                // every sub-sum is a multiple of 2^z and at most max(p, n) * 2^z in magnitude
+                Some((p, n, z)) => {
+                    if !w.holds_int(p.max(n), z) {
                         return false;
                     }
                 }
@@ -184,11 +219,15 @@ fn exactly_evaluable<const N: usize>(a: &[[Dy; N]; N], mant: u32) -> bool {
     true
 }
 
+fn exactly_evaluable<const N: usize>(a: &[[Dy; N]; N], mant: u32) -> bool {
+    exactly_evaluable_in(a, &Win::open(mant))
+}
+
 /// Entries a + x * d as pairs (a, x).
 type Pair = (i64, i64);
 
-fn near_singular_pairs<const N: usize>(t: &mut Tape) -> ([[Pair; N]; N], &'static str, bool) {
-    let p = if t.chance(16) { N } else { 1 + t.below(N - 1) };
+fn near_singular_pairs<const N: usize>(t: &mut Tape, full_rank: bool) -> ([[Pair; N]; N], &'static str, bool) {
+    let p = if full_rank || t.chance(16) { N } else { 1 + t.below(N - 1) };
     let dense = t.chance(96);
     let tri = |t: &mut Tape| if t.chance(if dense { 170 } else { 90 }) { if t.bool() { 1i64 } else { -1 } } else { 0 };
     let mut l = [[0i64; N]; N];
@@ -397,7 +436,7 @@ macro_rules! det_exact_case {
         /// Determinant of an exactly evaluable, nearly singular dyadic matrix: bit-for-bit the exact value.
         pub fn $fname<S: Dom>(t: &mut Tape, cx: &mut Cx) -> CaseResult {
             const N: usize = $N;
-            let (pairs, label, singular) = near_singular_pairs::<N>(t);
+            let (pairs, label, singular) = near_singular_pairs::<N>(t, false);
             let e = match deepest_exact_scale::<S, N>(&pairs) {
                 Some(e) => e,
                 None => discard!("precondition:not exactly evaluable at any scale d = 2^-e"),
@@ -493,7 +532,7 @@ pub fn inverse_exact<S: Dom>(t: &mut Tape, cx: &mut Cx) -> CaseResult {
         let (a, rigid, label) = axis_trs(t);
         (a, label, 0, rigid, None)
     } else {
-        let (pairs, label, _) = near_singular_pairs::<4>(t);
+        let (pairs, label, _) = near_singular_pairs::<4>(t, false);
         let e = match deepest_exact_scale::<S, 4>(&pairs) {
             Some(e) => e,
             None => discard!("precondition:not exactly evaluable at any scale d = 2^-e"),
@@ -641,6 +680,244 @@ pub fn inverse_exact<S: Dom>(t: &mut Tape, cx: &mut Cx) -> CaseResult {
             c2.invert_affine_transform_no_scale();
             check_eq!(cx, c2.to_arr(), c.inverted_affine_transform_no_scale().to_arr(), "col-major invert_affine_transform_no_scale() == returning form ({})", label);
         }
+    }
+    Ok(())
+}
+
+// ---------------------------------------------------------------------------------------------------------------
+// the determinant at the edge of the float range: in-place twins and exactness
+// ---------------------------------------------------------------------------------------------------------------
+
+fn rat_to_dy(r: Rat) -> Option<Dy> {
+    let d = r.denom();
+    if d.count_ones() != 1 {
+        return None;
+    }
+    Some(Dy::new(r.numer(), -(d.trailing_zeros() as i32)))
+}
+
+/// floor(log2 |d|), d != 0
+fn ilog2(d: Dy) -> i32 {
+    d.bits() as i32 + d.z - 1
+}
+
+/// Same value, NaN matching NaN (the two forms may not differ in anything a caller can observe).
+fn same_mat<S: Dom>(a: &M4<S>, b: &M4<S>) -> bool {
+    (0..4).all(|i| (0..4).all(|j| a[i][j] == b[i][j] || (a[i][j] != a[i][j] && b[i][j] != b[i][j])))
+}
+
+/// m * 2^z in the domain: exact whenever the value is representable (subnormals included), correctly rounded /
+/// flushed / overflowing otherwise. Computed in f64 with the power of two applied in steps that keep every intermediate
+/// value normal, then narrowed (an f32 value is an f64 value).
+fn value_of<S: Dom>(d: Dy) -> S {
+    let mut x = d.m as f64; // bits <= 53 for everything built here
+    let mut k = d.z;
+    while k != 0 && x != 0.0 && x.is_finite() {
+        let step = k.clamp(-1000, 1000);
+        x *= f64::from_bits(((1023 + step) as u64) << 52);
+        k -= step;
+    }
+    to_s::<S>(x)
+}
+
+/// `invert()` vs `inverted()` (and exactness of `inverted()`) on matrices whose DETERMINANT sits at the edge of the float
+/// range while the entries of the matrix and of its inverse are ordinary: a small dyadic base matrix times row / column
+/// powers of two whose exponents sum to the target.
+pub fn inverse_det_edge<S: Dom>(t: &mut Tape, cx: &mut Cx) -> CaseResult {
+    let w = Win::full::<S>();
+    let emin = if S::NAME == "f32" { -126 } else { -1022 }; // MIN_POSITIVE = 2^emin
+    let exact_mode = !t.chance(72);
+    let (base, label): ([[Dy; 4]; 4], &'static str) = if exact_mode {
+        let integer = t.chance(140);
+        let (pairs, label, _) = near_singular_pairs::<4>(t, integer);
+        let e = match deepest_exact_scale::<S, 4>(&pairs) {
+            Some(e) => e,
+            None => discard!("precondition:not exactly evaluable at any scale d = 2^-e"),
+        };
+        let e = if t.bool() { 1 + t.below(e as usize) as i32 } else { e };
+        (dyadic_matrix(&pairs, e), label)
+    } else {
+        let (m, label, _) = family(t);
+        let mut a = [[Dy::ZERO; 4]; 4];
+        for i in 0..4 {
+            for j in 0..4 {
+                a[i][j] = match rat_to_dy(m[i][j]) {
+                    Some(d) => d,
+                    None => discard!("precondition:non-dyadic family entry"),
+                };
+            }
+        }
+        (a, label)
+    };
+    let det0 = match minor_value(&base, 15, 15) {
+        Some(d) if !d.is_zero() => d,
+        _ => discard!("precondition:det=0"),
+    };
+    // target: floor(log2 |det|) of the scaled matrix
+    let (target, t_label) = match t.below(8) {
+        0 | 1 => (emin - 1, "target: subnormal det just below MIN_POSITIVE (reciprocal finite)"),
+        2 => (emin - 2, "target: subnormal det around 2^(emin-2) (reciprocal finite only above 2^-emax)"),
+        3 => (emin + t.below(4) as i32, "target: det in [MIN_POSITIVE, 16 MIN_POSITIVE)"),
+        4 => (w.zmin + 4 + t.below((emin - 3 - (w.zmin + 4)) as usize) as i32, "target: deep subnormal det (reciprocal overflows)"),
+        5 | 6 => (w.emax - 2 - t.below(8) as i32, "target: det within 2^9 of MAX"),
+        _ => (w.emax - 1 - t.below(3) as i32, "target: det within 2^3 of MAX (reciprocal subnormal)"),
+    };
+    let total = target - ilog2(det0);
+    let (mut r, mut c) = ([0i32; 4], [0i32; 4]);
+    let spread = |t: &mut Tape, sum: i32, out: &mut [i32; 4]| {
+        let q = sum.div_euclid(4);
+        *out = [q; 4];
+        out[t.below(4)] += sum - 4 * q;
+    };
+    let p_label = match t.below(4) {
+        0 => {
+            spread(t, total, &mut r);
+            "exponent spread evenly over the rows"
+        }
+        1 => {
+            spread(t, total, &mut c);
+            "exponent spread evenly over the columns"
+        }
+        2 => {
+            let half = total / 2;
+            spread(t, half, &mut r);
+            spread(t, total - half, &mut c);
+            "exponent spread over rows and columns"
+        }
+        _ => {
+            let lim = (total.abs() / 2).max(1) as i64;
+            for i in 0..3 {
+                r[i] = t.int(-lim.min(30000), lim.min(30000)) as i32;
+            }
+            r[3] = total - r[0] - r[1] - r[2];
+            "independent row exponents with the prescribed sum"
+        }
+    };
+    let scaled = |r: &[i32; 4], c: &[i32; 4]| {
+        let mut a = base;
+        for i in 0..4 {
+            for j in 0..4 {
+                if !a[i][j].is_zero() {
+                    a[i][j].z += r[i] + c[j];
+                }
+            }
+        }
+        a
+    };
+    let mut a = scaled(&r, &c);
+    if exact_mode {
+        // move the target towards 1 until every intermediate of the evaluation is representable (subnormals included)
+        let mut tries = 0;
+        while !exactly_evaluable_in(&a, &w) {
+            tries += 1;
+            if tries > 200 {
+                discard!("precondition:no exactly evaluable scaling near the target");
+            }
+            let cur: i32 = r.iter().sum::<i32>() + c.iter().sum::<i32>() + ilog2(det0);
+            let step = (cur.abs() / 64).max(1);
+            let k = t.below(4);
+            if cur > 0 {
+                r[k] -= step;
+            } else {
+                r[k] += step;
+            }
+            a = scaled(&r, &c);
+        }
+    }
+    let det = match minor_value(&a, 15, 15) {
+        Some(d) => d,
+        None => discard!("precondition:determinant outside the i128 bookkeeping"),
+    };
+    let tau = ilog2(det);
+    cx.label(label);
+    cx.label(t_label);
+    cx.label(p_label);
+    cx.label(if exact_mode { "exactly evaluable base (exactness of inverted() asserted where the reciprocal is usable)" } else { "structured family base (in-place vs returning form only)" });
+    let pow2 = det.m.abs() == 1;
+    cx.label(if tau < w.zmin {
+        "reached: |det| below the smallest subnormal"
+    } else if tau <= -w.emax {
+        "reached: |det| subnormal, reciprocal overflows"
+    } else if tau < emin {
+        "reached: |det| subnormal, reciprocal finite"
+    } else if tau < emin + 4 {
+        "reached: |det| in [MIN_POSITIVE, 16 MIN_POSITIVE)"
+    } else if tau >= -emin {
+        "reached: |det| >= 2^-emin (reciprocal subnormal)"
+    } else if tau >= w.emax - 12 {
+        "reached: |det| within 2^12 of MAX"
+    } else {
+        "reached: |det| in the interior of the range"
+    });
+    // adjugate and the usability of adj / det
+    let mut adj = [[Dy::ZERO; 4]; 4];
+    let mut assertable = exact_mode;
+    if exact_mode {
+        // reciprocal: exact for a power of two inside the grid, else it has to be a normal number
+        assertable &= if pow2 { -det.z >= w.zmin && -det.z < w.emax } else { tau >= -w.emax + 1 && -tau - 1 >= emin };
+        for i in 0..4 {
+            for j in 0..4 {
+                let v = minor_value(&a, 15 & !(1 << j), 15 & !(1 << i)).expect("exactly evaluable");
+                adj[i][j] = if (i + j) % 2 == 1 { Dy { m: -v.m, z: v.z } } else { v };
+                if !v.is_zero() {
+                    assertable &= if pow2 { w.holds(Dy { m: v.m, z: v.z - det.z }) } else { ilog2(v) - tau - 1 >= emin && ilog2(v) - tau + 1 < w.emax };
+                }
+            }
+        }
+        cx.label(if assertable { "inverted() must be the exact adj/det" } else { "inverse not representable through a reciprocal: only the twins are compared" });
+        if pow2 {
+            cx.label("det is a power of two");
+        }
+    }
+    let mut ms = [[S::zero(); 4]; 4];
+    for i in 0..4 {
+        for j in 0..4 {
+            ms[i][j] = value_of::<S>(a[i][j]);
+        }
+    }
+    cx.set_nontrivial(tau < emin + 4 || tau >= w.emax - 12);
+    sample!(cx, "{} {} row exps={:?} col exps={:?} det={:?} (2^{}) M={:?}", S::NAME, label, r, c, det, tau, ms);
+    let (rr, cc) = (rm::Mat4::<S>::from_arr(&ms), cm::Mat4::<S>::from_arr(&ms));
+    let (gr, gc) = (rr.inverted(), cc.inverted());
+    let mut r2 = rr;
+    r2.invert();
+    cx.count();
+    if !same_mat(&r2.to_arr(), &gr.to_arr()) {
+        fail!("row-major invert() differs from inverted() (|det| ~ 2^{}, {}):\n M = {:?}\n invert()   = {:?}\n inverted() = {:?}", tau, label, ms, r2.to_arr(), gr.to_arr());
+    }
+    let mut c2 = cc;
+    c2.invert();
+    cx.count();
+    if !same_mat(&c2.to_arr(), &gc.to_arr()) {
+        fail!("col-major invert() differs from inverted() (|det| ~ 2^{}, {}):\n M = {:?}\n invert()   = {:?}\n inverted() = {:?}", tau, label, ms, c2.to_arr(), gc.to_arr());
+    }
+    if assertable {
+        for (what, g) in [("row-major inverted()", gr.to_arr()), ("col-major inverted()", gc.to_arr())] {
+            for i in 0..4 {
+                for j in 0..4 {
+                    cx.count();
+                    if !quotient_matches(g[i][j].f(), adj[i][j], det, w.mant) {
+                        fail!(
+                            "{} of an exactly evaluable matrix with |det| ~ 2^{} ({}): element ({},{}) is {:?}, want adj/det = {:?} / {:?} = {:e} ({})\n M = {:?}\n got = {:?}",
+                            what,
+                            tau,
+                            label,
+                            i,
+                            j,
+                            g[i][j],
+                            adj[i][j],
+                            det,
+                            adj[i][j].to_f64() / det.to_f64(),
+                            if pow2 { "exactly: det is a power of two" } else { "within 2 eps" },
+                            ms,
+                            g
+                        );
+                    }
+                }
+            }
+        }
+        // (the receiver of invert() therefore holds the inverse too: a guard that leaves it untouched for a non-zero finite
+        // determinant fails the comparison above)
     }
     Ok(())
 }
